@@ -168,8 +168,17 @@ def holds_eq(ix, alt, sender, pred):
 def propagated(p, e):
     """is the Result of event e propagated (?/unwrap'ed/returned) on path p"""
     r = e.result
-    if p.ret == r or r in set(sym.walk(p.ret)):
-        return True
+    # returned as it is, or through wrappers that keep an Err an Err (map_err / From conversion of the error);
+    # a result that merely occurs inside the returned value (unwrap_or_default, ok(), match with a fallback) is
+    # NOT propagated: the caller would see Ok although the callee refused
+    v = p.ret
+    for _ in range(6):
+        if v == r:
+            return True
+        if tag(v) == "call" and kids(v) and str(payload(v)[0]).split("::")[-1] in ("map_err", "from_residual", "into", "from"):
+            v = kids(v)[0]
+            continue
+        break
     for (atom, outcome, _b, _l) in p.conds:
         if tag(atom) == "op" and payload(atom)[0] == "is_ok" and kids(atom)[0] == r and outcome is True:
             return True
